@@ -22,7 +22,11 @@ RULE = ('one request against one AuthTktCookieHelper configuration: a cookie val
         '(whole and +0.5 s; constant, or running: one second passes between the first and later readings of an operation) '
         'x a sequence of <= 6 identify/remember/forget calls on the helper -- in 22 % of the cases interleaved with calls on a '
         'SECOND helper (other secret / algorithm / address binding / cookie name) consulted for the same request --  response callbacks run, every issued cookie fed back into a fresh '
-        'identify; non-trivial = the request carries a cookie that reaches the digest comparison (fields parse) or the '
+        'identify; the helper is built by AuthTktCookieHelper(...) or (30 %) AuthTktAuthenticationPolicy(...) with keywords '
+        'equal to the documented default OMITTED in 45 % of the cases, integer arguments as int / decimal str / float, the '
+        'secret as str or UTF-8 bytes, tokens as tuple / list / one-shot generator / iterator, remember() user ids also of '
+        'types outside the encoder table (bool, None, float, tuple, str / int / bytes SUBCLASSES); through the policy its '
+        'unauthenticated_userid on a fresh request is a further observation; non-trivial = the request carries a cookie that reaches the digest comparison (fields parse) or the '
         'sequence issues a ticket; distinct by full case')
 ASSUMPTIONS = [
     'hashlib is an oracle: H(alg, bytes) -> hexdigest and digest_size come from hashlib itself, per case, through '
@@ -34,18 +38,24 @@ ASSUMPTIONS = [
     'cookie text comes out of WebOb\'s strict UTF-8 decoder, so it holds Unicode scalar values only (no lone surrogates)',
     'REMOTE_ADDR is a dotted-decimal IPv4 address with parts <= 255 or an IPv6 text containing ":" (latin-1)',
     'int() digit strings stay below CPython\'s 4300-digit limit',
-    'userid passed to remember() is int, str or bytes (other types are str()-converted by the code with a warning; '
-    'the harness performs that conversion)',
+    'userid passed to remember() is int, str or bytes, or an object of any other type (modelled by its str(), computed '
+    'with str() in the harness): the property names int / text / bytes only, so for other types the spec demands only that '
+    'the issued ticket is accepted with the right timestamp and tokens (the correspondence compares the user id too)',
+    'integer-valued constructor / remember arguments (timeout, reissue_time, max_age) are ints, decimal strings or '
+    'whole floats: int() of them is the identity on the VALUE, which is what the model carries',
     'the spec compares token *sets* modulo empty strings: a ticket issued without tokens is reported with tokens [\'\']',
 ]
 TRUSTED = [
     'translator harness/c09/translate.py: its PRIMITIVE TABLE (which Python leaf expression / idiom becomes which Gallina '
     'primitive of Model/C09_base.v, Lib/C09Base.v, Lib/Text.v, Lib/Percent.v, Lib/Utf8.v) and its control-flow rules; the '
     'control flow of parse_ticket, calculate_digest, encode_ip_timestamp, AuthTicket.digest/cookie_value, '
-    'AuthTktCookieHelper.identify/remember/forget/_get_cookies is NOT hand-modelled any more: it is regenerated from the '
-    'source on every run and proved equal to the reference model (C09_generated_*_is_model)',
-    'shape pins only for what is not translated: AuthTicket.__init__, AuthTktCookieHelper.__init__, BadTicket, b64encode, '
-    'b64decode, util.strings_differ/text_/bytes_/ascii_',
+    'AuthTktCookieHelper.identify/remember (both branches of the type lookup)/forget/_get_cookies/__init__, '
+    'AuthTktAuthenticationPolicy.__init__/unauthenticated_userid/remember/forget is NOT hand-modelled any more: it is '
+    'regenerated from the source on every run and proved equal to the reference model (C09_generated_*_is_model); the '
+    'constructors are typed by parameter NAME and taken in the source\'s parameter order, their literal defaults are '
+    'regenerated too (C09_generated_defaults_are_documented)',
+    'shape pins only for what is not translated: AuthTicket.__init__, BadTicket, b64encode, '
+    'b64decode, util.strings_differ/text_/bytes_/ascii_, SimpleSerializer.loads/dumps',
     'coq/Lib/C09Base.v: CPython int(s, base) leniency, %08x / str(int), base64 (b64encode, lenient a2b_base64), UTF-8 '
     'errors=replace, urllib.parse.unquote on str -- modelled, validated by the correspondence run, not verified',
     'WebOb CookieProfile / request cookie parsing: oracle for the Set-Cookie text (headers are parsed back by WebOb)',
@@ -61,7 +71,12 @@ LEVEL_TEXT = ('Machine-checked theorems for every cookie string, clock value (wh
               'src/pyramid/authentication.py on this run (..._generated); C09_generated_*_is_model prove function by function '
               '(one induction per loop) that the regenerated program is the reference model, so a semantics-preserving rewrite '
               'of the source regenerates a term the same proofs accept, while a semantic change makes an equality theorem fail '
-              'and the correspondence / spec run supplies the replay.  See harness/c09/NOTES.md.')
+              'and the correspondence / spec run supplies the replay.  Fifth round: the reissued ticket is VALID '
+              '(C09_reissued_ticket_valid, C09_issued_reissue_chain: remember -> present -> reissue -> present again yields the '
+              'same typed user id and tokens); construction is inside the model (C09_construct_is_model: the helper a caller '
+              'gets from either constructor has exactly the configuration asked for, omitted keywords = documented defaults); '
+              'the policy wrapper obeys the digest law and never raises on unsigned cookies (C09_policy_accept_implies_digest, '
+              'C09_policy_total).  See harness/c09/NOTES.md.')
 LEVEL_NOTE = ('Trusted: Coq kernel; the translator\'s primitive table and control-flow rules (anything outside subset / table is '
               'a broken tie, never a guess); Python harness; hashlib/WebOb/Unicode-database behaviour taken as oracles; pins for '
               'the few untranslated functions.  Premises visible in theorem statements: length (H a x) = digest length, H output '
@@ -110,6 +125,8 @@ def setup(tier):
 
 
 def _py_uval(u):
+    if u[0] == 3:
+        return G.other_object(u[1], u[2])      # an object of a type outside the encoder table (bool, subclass, ...)
     k, s = u
     if k == 0:
         return s
@@ -118,14 +135,42 @@ def _py_uval(u):
     return s.encode('latin-1')
 
 
+def _wire_uarg(u):
+    """remember() argument on the wire: known types as they are, any other object by its str() (computed here)"""
+    if u[0] == 3:
+        return [3, str(G.other_object(u[1], u[2]))]
+    return u
+
+
 def _wire_uval(x):
-    if isinstance(x, bool) or not isinstance(x, (int, str, bytes)):
-        return [0, 'UNEXPECTED:' + type(x).__name__]
-    if isinstance(x, int):
+    # EXACT types: identify() must hand back a plain int / str / bytes
+    if type(x) is int:
         return [1, str(x)]
-    if isinstance(x, bytes):
+    if type(x) is bytes:
         return [2, x.decode('latin-1')]
-    return [0, x]
+    if type(x) is str:
+        return [0, x]
+    return [0, 'UNEXPECTED:' + type(x).__name__]
+
+
+def _num(form, n):
+    """an integer argument in the form a caller may write it: int, decimal str (settings files), float"""
+    if form == 'str':
+        return str(n)
+    if form == 'float' and abs(n) < 2 ** 50:
+        return float(n)
+    return n
+
+
+def _toks(form, toks):
+    """the tokens argument as a tuple, a list, or a ONE-SHOT iterable"""
+    if form == 'list':
+        return list(toks)
+    if form == 'gen':
+        return (t for t in list(toks))
+    if form == 'iter':
+        return iter(list(toks))
+    return tuple(toks)
 
 
 def _mkreq(rq, name, cookie):
@@ -166,10 +211,26 @@ def _idres(x):
     return [1, x['timestamp'], _wire_uval(x['userid']), list(x['tokens']), x['userdata']]
 
 
-def _helper(cfg, **over):
+def _ctor_args(cfg, case=None, **over):
+    """(secret, keywords) for AuthTktCookieHelper / AuthTktAuthenticationPolicy: keywords marked in case['omit'] are
+    left out (the generator marks only values equal to the documented default), the secret may go in as UTF-8 bytes"""
     kw = dict(cfg)
     kw.update(over)
     secret = kw.pop('secret')
+    if case is not None:
+        if case.get('secret_bytes'):
+            secret = secret.encode('utf-8')
+        for f in ('timeout', 'reissue_time', 'max_age'):
+            if kw.get(f) is not None:
+                kw[f] = _num(case.get('numform'), kw[f])      # '1200' as an .ini file gives it, or 1200.0
+        for f, om in zip(G.OMIT_FIELDS, case.get('omit') or []):
+            if om:
+                kw.pop(f, None)
+    return secret, kw
+
+
+def _helper(cfg, case=None, **over):
+    secret, kw = _ctor_args(cfg, case, **over)
     return _impl['A'].AuthTktCookieHelper(secret, **kw)
 
 
@@ -204,12 +265,12 @@ def run_impl(case):
     if case.get('via_policy'):
         # the policy wrapper is a second public entry point: its constructor builds the helper, its remember / forget /
         # unauthenticated_userid delegate to it
-        kw = dict(cfg)
-        pol = _impl['A'].AuthTktAuthenticationPolicy(kw.pop('secret'), **kw)
+        secret, kw = _ctor_args(cfg, case)
+        pol = _impl['A'].AuthTktAuthenticationPolicy(secret, **kw)
         h = pol.cookie
     else:
-        h = _helper(cfg)
-    hfb = _helper(cfg, reissue_time=None)
+        h = _helper(cfg, case)
+    hfb = _helper(cfg, {'secret_bytes': case.get('secret_bytes')}, reissue_time=None)
     tnow = rq['now'] + 0.5 if rq.get('half') else rq['now']     # float clock, as time.time() gives
     _impl['clock'].t = tnow
     if case.get('seam'):
@@ -245,9 +306,9 @@ def run_impl(case):
         else:
             try:
                 if kind == 1:
-                    kw = {'tokens': tuple(op[3])}
+                    kw = {'tokens': _toks(case.get('tokform'), op[3])}
                     if op[2] is not None:
-                        kw['max_age'] = op[2]
+                        kw['max_age'] = _num(case.get('numform'), op[2])
                     hs = (hh if second else (pol or h)).remember(req, _py_uval(op[1]), **kw)
                 else:
                     hs = (hh if second else (pol or h)).forget(req)
@@ -278,6 +339,8 @@ def run_impl(case):
             b = ['uid', _wire_uval(b['userid'])] if b else ['none']
         except Exception:
             b = ['raise']
+        # the policy's answer is an observation of its own (the model answers with the regenerated wrapper)
+        outs.append([3, {'none': [0], 'raise': [2]}.get(a[0]) or [1, a[1]]])
         if a != b:
             outs.append(['POLICY-DELEGATION', a, b])
     fb = []
@@ -349,9 +412,11 @@ def _base_wire(case, htab):
         sec_cookie = rq['cookie'] if c2['cookie_name'] == cfg['cookie_name'] else case['second']['cookie']
         sec = [_cfg_wire(c2), _opt(sec_cookie)]
     dt = [[a, hashlib.new(a).digest_size] for a in sorted(algs)]
-    ops = [[op[0]] if op[0] % 3 != 1 else [op[0], op[1], _opt(op[2]), list(op[3])] for op in case['ops']]
+    ops = [[op[0]] if op[0] % 3 != 1 else [op[0], _wire_uarg(op[1]), _opt(op[2]), list(op[3])] for op in case['ops']]
+    omit = [bool(x) for x in (case.get('omit') or [False] * len(G.OMIT_FIELDS))]
     return [_cfg_wire(cfg), [_opt(rq['cookie']), rq['ip'], _host_domain(rq['host']), rq['now'], bool(rq.get('half')), bool(rq.get('tick'))], ops, org,
-            [dt, htab, _uni_table((rq['cookie'] or '') + (sec_cookie or ''))], sec]
+            [dt, htab, _uni_table((rq['cookie'] or '') + (sec_cookie or ''))], sec,
+            [bool(case.get('via_policy')), omit]]
 
 
 def _answer(case, missing, htab, seen):
@@ -504,6 +569,17 @@ def _problems(case, obs, spec):
     for o in outs:
         if o and o[0] == 'POLICY-DELEGATION':
             bad.append(('policy-delegation', o))
+    pol_ans = [o[1] for o in outs if o and o[0] == 3]
+    for r in pol_ans:
+        # AuthTktAuthenticationPolicy.unauthenticated_userid on a fresh request: same law as identify
+        if r == [2] and not doks[0]:
+            bad.append(('never-raises', ['policy', r]))
+        if r[0] == 1 and not doks[0]:
+            bad.append(('digest-law', ['policy', r]))
+        if expect[0] == 1:
+            want = expect[1]
+            if (not want and r != [0]) or (want and r != [1, want[1]]):
+                bad.append(('issued-ticket-accepted' if want else 'expired-ticket-rejected', ['policy', r, want]))
     org = case.get('origin')
     ids = []
     for op, o in zip(case['ops'], outs):
@@ -553,7 +629,9 @@ def _problems(case, obs, spec):
                     k += 1
                     to = case['cfg']['timeout']
                     if op[0] == 1 and (to is None or to >= 0) and 0 <= case['req']['now'] < 2 ** 32:
-                        if not got or got[0] != 1 or got[1] != case['req']['now'] or got[2] != op[1] \
+                        # an object outside the encoder table (op[1][0] == 3): the property names int / text / bytes only,
+                        # so only acceptance, timestamp and tokens are demanded of it (the correspondence compares the rest)
+                        if not got or got[0] != 1 or got[1] != case['req']['now'] or (op[1][0] != 3 and got[2] != op[1]) \
                                 or _tokset(got[3]) != _tokset(op[3]):
                             bad.append(('remember-roundtrip', [got, op]))
     if isinstance(resp, list) and resp and resp[0] != 'CALLBACK-EXC':
@@ -637,6 +715,17 @@ def kinds(case, obs):
                                       else 'own-cookie'))
     if case['req'].get('tick'):
         ks.append('running-clock')
+    if any(case.get('omit') or []):
+        ks.append('ctor-keywords-omitted:%d' % sum(1 for x in case['omit'] if x))
+    if case.get('secret_bytes'):
+        ks.append('secret-as-bytes')
+    if case.get('numform') in ('str', 'float'):
+        ks.append('int-arguments-as:' + case['numform'])
+    if case.get('tokform') and any(op[0] % 3 == 1 for op in case['ops']):
+        ks.append('tokens-as:' + case['tokform'])
+    for op in case['ops']:
+        if op[0] % 3 == 1 and op[1][0] == 3:
+            ks.append('userid-other-type:' + op[1][1])
     if case['cfg']['include_ip']:
         ks.append('ip:' + ('v6' if ':' in case['req']['ip'] else 'v4'))
     return ks
@@ -676,6 +765,14 @@ def shrinks(case):
         yield w(via_policy=False)
     if case.get('seam'):
         yield w(seam=False)
+    if any(case.get('omit') or []):
+        yield w(omit=None)
+    if case.get('secret_bytes'):
+        yield w(secret_bytes=False)
+    if case.get('numform') in ('str', 'float'):
+        yield w(numform='int')
+    if case.get('tokform') not in (None, 'tuple'):
+        yield w(tokform='tuple')
     if case.get('other_u') is not None:
         yield w(other_u=None)
     rq = case['req']
